@@ -141,9 +141,8 @@ def body(e, L, cfg):
         live = [g.live(v) for v in range(N)]
         cons = [z3.Or(live)]
         for v in range(N):
-            cons.append(z3.Implies(live[v], g.deg(v) == d))
-            for j in range(4):
-                cons.append(z3.Implies(g.arc[v][j], live[succ(v, j, k)]))
+            # exactly d LIVE successors; further arcs into dead-end vertices are allowed (they carry no weight)
+            cons.append(z3.Implies(live[v], z3.Sum([z3.If(z3.And(g.arc[v][j], live[succ(v, j, k)]), 1, 0) for j in range(4)]) == d))
         e.assume(z3.And(cons))
         acc.budget = symnp.AccessBudget(6)
         try:
